@@ -122,8 +122,93 @@ pub fn run_mutations(bytes: &[u8]) -> Result<(u64, u64), String> {
     Ok((n, opened))
 }
 
+/// Sets the header version of a file encoded for version `from` to `to`,
+/// adding / dropping / recomputing the trailing checksum as `to` requires.
+fn relabel(bytes: &[u8], from: u64, to: u64) -> Vec<u8> {
+    let mut b = if from >= 3 { bytes[..bytes.len() - 4].to_vec() } else { bytes.to_vec() };
+    put64(&mut b, 0, to);
+    if to >= 3 {
+        let c = masked_crc32c(&b);
+        b.extend_from_slice(&c.to_le_bytes());
+    }
+    b
+}
+
+/// The member `(v, name)` of the legacy family: reference-encoded files of
+/// version 1, 2 and 3 (sets and maps, fan-outs across the index threshold).
+pub fn legacy_members() -> Vec<(String, Vec<Kv>)> {
+    let mut v: Vec<(String, Vec<Kv>)> = vec![];
+    let u = u_ab3();
+    for mask in [0u64, 1, 0b10, 0b110, 0b10110, 0b1011011, (1 << 15) - 1] {
+        v.push((format!("U_ab3 mask {:x}", mask), Pat::Lin3.apply(&select(&u.keys, mask))));
+    }
+    for n in [1usize, 2, 31, 32, 33, 34, 40, 64, 100, 255, 256] {
+        let keys: Vec<Key> = (0..n).map(|i| vec![((i * 256) / n) as u8]).collect();
+        v.push((format!("fanout {} set", n), Pat::Zero.apply(&keys)));
+        v.push((format!("fanout {} map", n), Pat::Lin3.apply(&keys)));
+        let mut keys2: Vec<Key> = vec![vec![]];
+        keys2.extend((0..n).map(|i| vec![(255 - i) as u8]));
+        keys2.sort();
+        v.push((format!("fanout {} final root wide values", n), Pat::MaxMinus.apply(&keys2)));
+        let mut keys3: Vec<Key> = (0..n).map(|i| vec![b'p', i as u8]).collect();
+        keys3.push(b"q".to_vec());
+        v.push((format!("fanout {} below a prefix", n), Pat::Lin3.apply(&keys3)));
+    }
+    v
+}
+
+/// One legacy member: every version, every relabelling, every truncation and
+/// every single-byte mutation (plain, and with the checksum recomputed).
+pub fn run_legacy(kvs: &[Kv], mutate: bool) -> Result<(u64, u64), String> {
+    use crate::codec::{self, EncodeOpts, Layout};
+    let mut n = 0u64;
+    let mut opened = 0u64;
+    for from in [1u64, 2, 3] {
+        for any_only in [false, true] {
+            let base = codec::encode(kvs, &EncodeOpts { version: from, ty: 0, layout: Layout::Shared, any_trans_only: any_only });
+            for to in [1u64, 2, 3] {
+                let b = relabel(&base, from, to);
+                n += 1;
+                let o = total(&b)?;
+                opened += o as u64;
+                if !mutate || (from != to && b.len() > 400) {
+                    continue;
+                }
+                for cut in 0..=b.len() {
+                    n += 1;
+                    opened += total(&b[..cut])? as u64;
+                }
+                let mut m = b.clone();
+                let body = if to >= 3 { b.len() - 4 } else { b.len() };
+                let deltas: &[u8] = if b.len() > 400 { &[0x01, 0x80, 0xff] } else { &[0x01, 0x02, 0x04, 0x08, 0x10, 0x20, 0x40, 0x80, 0xff, 0x7f, 0x03] };
+                for pos in 0..body {
+                    for &d in deltas {
+                        m[pos] = b[pos] ^ d;
+                        n += 1;
+                        opened += total(&m)? as u64;
+                        if to >= 3 {
+                            // the same mutant with a correct checksum: reaches the code behind the checksum test
+                            let c = masked_crc32c(&m[..body]);
+                            m[body..].copy_from_slice(&c.to_le_bytes());
+                            n += 1;
+                            opened += total(&m)? as u64;
+                            m[body..].copy_from_slice(&b[body..]);
+                        }
+                    }
+                    m[pos] = b[pos];
+                }
+            }
+        }
+    }
+    Ok((n, opened))
+}
+
 pub fn replay(case: &Value) -> Result<String, String> {
     match case["kind"].as_str().unwrap() {
+        "legacy" => {
+            let i = case["member"].as_u64().unwrap() as usize;
+            run_legacy(&legacy_members()[i].1, true).map(|(n, o)| format!("{} files, {} opened, no panic", n, o))
+        }
         "grid" => run_grid(case["len"].as_u64().unwrap() as usize).map(|(n, o)| format!("{} files, {} opened, no panic", n, o)),
         "bytes" => total(&unhex(case["hex"].as_str().unwrap())).map(|o| format!("opened={} no panic", o)),
         "unsafe" => forbid_unsafe(),
@@ -169,7 +254,7 @@ pub fn forbid_unsafe() -> Result<String, String> {
 pub fn plan(tier: Tier) -> Plan {
     let mut p = Plan::new("C20", "exploration");
     let thorough = tier.thorough();
-    p.rule = "(a) boundary grid: total length 0..64 x version field {0,1,2,3,4,2^32,u64::MAX} x root address {0,1,15,16,len-22..len-16,len-1,len,len+1,2^31,2^63,u64::MAX-20,u64::MAX-16,u64::MAX} x key count {0,1,u64::MAX} x filler {00,ff,80,40,c1} x checksum {0, correct, inverted}; (b) every truncation (every prefix and every suffix) and every single-byte mutation (255 values) of every FST built from subsets of U_ab3 with <= 3 keys (thorough: <= 4) and of three fan-out FSTs; for each byte string, under catch_unwind with overflow checks on: Fst::new / Map::new / Set::new (slice and Vec) and, on whatever opens, len, is_empty, fst_type, size, as_bytes, to_vec, verify - any panic is a violation; (c) cargo rustc -p fst --lib --features levenshtein -- -F unsafe_code must compile (a lint, not model checking). non-trivial = byte strings that open".into();
+    p.rule = "(a) boundary grid: total length 0..64 x version field {0,1,2,3,4,2^32,u64::MAX} x root address {0,1,15,16,len-22..len-16,len-1,len,len+1,2^31,2^63,u64::MAX-20,u64::MAX-16,u64::MAX} x key count {0,1,u64::MAX} x filler {00,ff,80,40,c1} x checksum {0, correct, inverted}; (b) every truncation (every prefix and every suffix) and every single-byte mutation (255 values) of every FST built from subsets of U_ab3 with <= 3 keys (thorough: <= 4) and of three fan-out FSTs; for each byte string, under catch_unwind with overflow checks on: Fst::new / Map::new / Set::new (slice and Vec) and, on whatever opens, len, is_empty, fst_type, size, as_bytes, to_vec, verify - any panic is a violation; (b2) files written by the independent reference encoder in versions 1, 2 and 3 (small sets, fan-outs 1..256 across the index threshold, final roots, wide node below a prefix; both node-form policies): each as is, with the header relabelled to each other version (checksum added/dropped/recomputed), every truncation, and single-byte mutants (11 xor masks per position) both plain and WITH THE CHECKSUM RECOMPUTED so that the code behind the checksum test is reached; (c) cargo rustc -p fst --lib --features levenshtein -- -F unsafe_code must compile (a lint, not model checking). non-trivial = byte strings that open".into();
     p.assumptions = vec![
         "operations after the gate (root, stream, get) on garbage may panic by the property's own wording and are not called".into(),
         "the 'no unsafe code' clause is decided by the compiler's forbid(unsafe_code) lint over the library crate with the levenshtein feature on".into(),
@@ -239,6 +324,27 @@ pub fn plan(tier: Tier) -> Plan {
             }));
         }
     }
+    for (i, (name, kvs)) in legacy_members().into_iter().enumerate() {
+        p.units.push(unit("reference-encoded-v1-v2-v3-files-relabelled-truncated-mutated", format!("legacy {}", name), move |st, rep| {
+            match run_legacy(&kvs, true) {
+                Ok((n, o)) => {
+                    st.evals += n;
+                    st.states += n;
+                    st.transitions += 7 * o + n;
+                    st.nontrivial += o;
+                    st.count("legacy_files", n);
+                    st.count("legacy_files_opened", o);
+                }
+                Err(msg) => {
+                    if msg.starts_with("machinery") {
+                        eprintln!("{}", msg);
+                        std::process::exit(2);
+                    }
+                    rep.violation(format!("legacy {}", name), msg, json!({"kind": "legacy", "member": i}))
+                }
+            }
+        }));
+    }
     p.units.push(unit("forbid-unsafe-code-lint", "unsafe lint".into(), move |st, rep| {
         st.evals += 1;
         st.states += 1;
@@ -253,6 +359,6 @@ pub fn plan(tier: Tier) -> Plan {
             }
         }
     }));
-    p.must_be_nonzero = vec!["grid_files_opened".into(), "mutants_opened".into(), "unsafe_lint_passed".into()];
+    p.must_be_nonzero = vec!["grid_files_opened".into(), "mutants_opened".into(), "unsafe_lint_passed".into(), "legacy_files_opened".into()];
     p
 }
